@@ -236,14 +236,30 @@ func TestRPCPolicy(t *testing.T) {
 		history := []string{fmt.Sprintf("%s listed=%d", mode, listedIdx)}
 		nontrivial := false
 		allowedTrusted, refused := 0, 0
+		transportRetries, undecided := 0, 0
 		matrix := func() {
 			for ci, cl := range clients {
 				for _, e := range eps {
 					name := e.svc + "." + e.method
-					ctx, cancel := context.WithTimeout(context.Background(), 10*time.Second)
-					var reply struct{}
-					err := cl.CallContext(ctx, a.ID(), e.svc, e.method, badArg(e), &reply)
-					cancel()
+					var err error
+					for try := 0; try < 6; try++ {
+						ctx, cancel := context.WithTimeout(context.Background(), 10*time.Second)
+						var reply struct{}
+						err = cl.CallContext(ctx, a.ID(), e.svc, e.method, badArg(e), &reply)
+						cancel()
+						// a client-side error (the stream was reset before the
+						// response could be read: the server closes a refused
+						// stream while the argument is still in flight) says
+						// nothing about the decision: ask again
+						if err == nil || !rpc.IsClientError(err) || strings.Contains(err.Error(), "deadline") {
+							break
+						}
+						transportRetries++
+					}
+					if err != nil && rpc.IsClientError(err) && !strings.Contains(err.Error(), "deadline") {
+						undecided++
+						continue
+					}
 					allowed := !isAuthErr(err)
 					if err != nil && !allowed {
 						refused++
@@ -307,6 +323,8 @@ func TestRPCPolicy(t *testing.T) {
 		}
 		leg.Class("allowed-trusted-calls", int64(allowedTrusted))
 		leg.Class("refused-calls", int64(refused))
+		leg.Class("calls-repeated-after-transport-error", int64(transportRetries))
+		leg.Class("calls-left-undecided-by-transport-errors", int64(undecided))
 		leg.Case(strings.Join(history, " ; "), nontrivial, "mode:"+mode)
 	})
 }
